@@ -266,6 +266,59 @@ def r_err(ctx, rule, fns, exceptions=None, err_types=ERR_TYPES):
                 if re.search(r"Flatten<std::io::Lines<|Flatten<.*Result<", dty):
                     n_sites += 1
                     ctx.violate(rule, fn, "flatten(io::Lines)", "an iterator of io::Result items is flattened: every read error is dropped silently", pt=pt)
+    # an Err arm that never looks at the error and carries on (`if let Ok(x) = f() {..}`, `Err(_) => {}`): the error edge of
+    # the switch on the Result reaches a success return, or the next iteration, without reading the payload
+    for fn in fns:
+        seen_sites = set()
+        for b, t in fn.calls():
+            d = t["dest"]
+            if d["p"] or d["l"] == 0:
+                continue
+            e = result_err(fn.locals[d["l"]])
+            if e is None or not err_types.match(strip_generics(e)):
+                continue
+            l = d["l"]
+            cpt = P.term_pt(fn, b.idx)
+            for bb in fn.blocks:
+                tt = bb.term
+                if tt["t"] != "switch" or tt["discr"].get("k") not in ("copy", "move"):
+                    continue
+                dl = tt["discr"]["pl"]["l"]
+                if not [1 for (_pt, kind, p_) in P.defs(fn).of(dl) if kind == "assign" and p_["rv"]["r"] == "discr" and p_["rv"]["pl"]["l"] == l and not p_["rv"]["pl"]["p"]]:
+                    continue
+                errs = [s_ for lab, s_ in bb.succs if lab == "sw:1"]
+                if not errs:
+                    continue
+                reads = []
+                for b2 in fn.blocks:
+                    for i, st in enumerate(b2.st):
+                        if st["s"] != "=":
+                            continue
+                        rv = st["rv"]
+                        ops = [rv.get("a"), rv.get("b")] + list(rv.get("ops", ())) + ([{"k": "copy", "pl": rv["pl"]}] if "pl" in rv and rv["r"] != "discr" else [])
+                        for o in ops:
+                            if isinstance(o, dict) and o.get("k") in ("copy", "move") and o["pl"]["l"] == l:
+                                if any(isinstance(e_, dict) and e_.get("dc") == "Err" for e_ in o["pl"]["p"]) or not o["pl"]["p"]:
+                                    reads.append((b2.idx, i))
+                    t2 = b2.term
+                    if t2["t"] == "call" and any(a.get("k") in ("copy", "move") and a["pl"]["l"] == l for a in t2["args"]):
+                        reads.append(P.term_pt(fn, b2.idx))
+                avoid = set(reads) | set(P.error_points(fn))
+                q = P.reach(fn, [(errs[0], 0)], P.return_points(fn), avoid=avoid) or P.reach(fn, [(errs[0], 0)], [cpt], avoid=avoid)
+                if q is None or cpt in seen_sites:
+                    continue
+                seen_sites.add(cpt)
+                ck = callee_skey(t) or "indirect"
+                construct = "err-arm-ignored(%s)" % P.short(ck)
+                n_sites += 1
+                why = exceptions.get((fn.skey, construct))
+                if why:
+                    used_exc.add((fn.skey, construct))
+                    ctx.exception(rule, fn.skey, construct, why)
+                    ctx.ok(rule, fn, "excepted: %s (%s)" % (construct, why), [cpt])
+                else:
+                    ctx.violate(rule, fn, construct, "the Err arm of %s neither reads the error nor fails: the function carries on as if the call had "
+                                "succeeded (error swallowed on this branch)" % P.short(ck), pt=cpt, path=q)
     for k, why in exceptions.items():
         if k not in used_exc:
             ctx.notes.append("%s: exception %s no longer matches any site" % (rule, k))
